@@ -10,7 +10,8 @@ CONSTANTS
   Emit = TRUE
   MaxReqs = 3
   CacheKinds = {"none", "map", "lru", "lru1"}
+  Mode = "hist"
 SPECIFICATION GSpec
 ACTION_CONSTRAINT EmitHist
-INVARIANTS GateIndependent CacheInv TArgMono TArgMatters TBindState
+INVARIANTS GateIndependent CacheInv TArgMono TArgMatters TBindState CtxIndependent OverLimitRunsNothing CtxInv
 CHECK_DEADLOCK FALSE
